@@ -1,5 +1,6 @@
 mod common;
 mod stream;
+mod codec;
 mod rng;
 mod sign;
 mod prims;
@@ -63,6 +64,7 @@ fn main() {
         "sign" => sign::cmd_sign(rest),
         "rng-list" => rng::cmd_list(rest),
         "rng-trace" => rng::cmd_trace(rest),
+        "codec" => codec::cmd_codec(rest),
         "inc-splits" => inchash::cmd_splits(rest),
         "inc-replay" => inchash::cmd_replay(rest),
         "inc-trace" => inchash::cmd_trace(rest),
